@@ -39,6 +39,10 @@
      UnicastToAll         a unicast is written to every stream
      FlushWriteMayTruncate a flushed message may reach a receiver only in part (e.g. write_all failing in
                           mid-frame on a socket that was left non-blocking, the error being ignored)
+     CloseOvertakesMessages the Close frame of a client is acted upon although data frames that arrived before it
+                          (in the same write / poll interval) have not been dispatched yet: they are lost
+     BroadcastAbortsOnDeadPeer a broadcast stops at the first stream whose socket is dead (the write fails):
+                          the members after it never get the message
      PingSkippedWhenActive the heartbeat ping is not sent to a stream that delivered a message in the same
                           iteration, although liveness is judged by the last pong alone
 
@@ -64,7 +68,8 @@ CONSTANTS Clients,       \* client ids (small positive integers; one id = one so
 
 NoClient == 0        \* client ids are compared, never computed with: the MC configs use model values
 DevNames == {"InvocationInversion", "DoubleDisconnect", "RemoveOnNone", "LateConnect",
-             "BroadcastSkipsSender", "UnicastToAll", "PingSkippedWhenActive", "FlushWriteMayTruncate"}
+             "BroadcastSkipsSender", "UnicastToAll", "PingSkippedWhenActive", "FlushWriteMayTruncate",
+             "CloseOvertakesMessages", "BroadcastAbortsOnDeadPeer"}
 ASSUME Dev \subseteq DevNames
 ASSUME Reply["D"] # "uni"         \* AsyncStream::send asserts `connected`
 
@@ -229,11 +234,15 @@ RecvCtlEff(c) ==
   /\ UNCHANGED <<cst, sent, pings, pending, incoming, streams, q, wst, wtask, outgoing, ext, shut,
                  sentTo, rxn, dseq, iseq, admitted, tmo, flog>>
 
-\* a Close frame, or a read error: reset socket; a dropped socket starts answering the
-\* server's heartbeat pings with RST, after which reads fail as well
+\* a Close frame, or a read error (reset socket)
+\* A dropped socket (FIN, no Close frame): on Linux read() keeps returning 0 once the FIN was seen, whatever
+\* is written to the socket afterwards, and recv_nonblocking takes 0 for "nothing yet": only the heartbeat
+\* reaps such a stream.  The model accepts either outcome (None for ever, or a read error), so a tree that
+\* treats end-of-stream as a disconnect is not flagged.
 ErrPossible(c) == \/ (net[c] # <<>> /\ Head(net[c]).k = "close")
+                  \/ ("CloseOvertakesMessages" \in Dev /\ \E x \in DOMAIN net[c] : net[c][x].k = "close")
                   \/ cst[c] = "gone_rst"
-                  \/ (cst[c] = "gone_fin" /\ Heartbeat)
+                  \/ cst[c] = "gone_fin"
 RecvErrPre(c) == c \in streams /\ ErrPossible(c)
 RemoveEff(c, forget) ==
   streams' = IF forget THEN streams ELSE streams \ {c}
@@ -247,7 +256,7 @@ RecvErrEff(c) ==
 \* nothing (more) to read right now. A frame that is still in flight is, for everything the server
 \* can observe, the same as a frame the client writes later (Cl_Send is enabled at any time), so
 \* network latency needs no action of its own: None is what an empty buffer yields. A reset socket
-\* yields the error; a dropped one (FIN, read returns Ok(0)) yields None until a ping provokes RST.
+\* yields the error; a dropped one (FIN, read returns Ok(0)) yields None.
 RecvNonePre(c) == c \in streams /\ net[c] = <<>> /\ cst[c] # "gone_rst"
 RecvNoneEff(c) ==
   IF "RemoveOnNone" \in Dev
@@ -300,7 +309,9 @@ FlushUniEff(msg) ==
 FlushBcPre(msg) == msg.k = "bc"
 FlushBcEff(msg) ==
   LET ideal == streams
-      real  == IF "BroadcastSkipsSender" \in Dev THEN streams \ {msg.c} ELSE ideal
+      real  == IF "BroadcastSkipsSender" \in Dev THEN streams \ {msg.c}
+               ELSE IF "BroadcastAbortsOnDeadPeer" \in Dev /\ \E g \in streams : Gone(g)
+               THEN {g \in streams : Gone(g)} ELSE ideal
   IN /\ WriteTo(real, msg)
      /\ flog' = flog \cup {[msg |-> msg, to |-> ideal]}
 
@@ -521,6 +532,10 @@ RemovedIsDisconnected == \A c \in admitted : c \notin streams => CountK(dseq[c],
 DisconnectOnlyIfClosed == \A c \in Clients : Has(dseq[c], "D") => (cst[c] # "open" \/ c \in tmo)
 \* ... and the heartbeat reaps only clients that left a Ping unanswered (or are closed / gone anyway)
 DisconnectOnlyIfClosedOrSilent == DisconnectOnlyIfClosed /\ tmoBad = {}
+\* a client that sent a Close frame and was disconnected for it had every message it sent before dispatched
+\* first (also when messages and Close arrive in one write, within one poll interval)
+ClosedAfterAllMessages == \A c \in Clients : (cst[c] = "closed" /\ Has(dseq[c], "D") /\ c \notin tmo)
+                                                 => CountK(dseq[c], "M") = sent[c]
 \* nothing is dispatched for a client that was never inserted
 OnlyAdmittedDispatched == \A c \in Clients : dseq[c] # <<>> => c \in admitted
 
@@ -561,7 +576,7 @@ CurInStreams == (lpc = "poll" /\ cur # NoClient) => (cur \in streams \/ "DoubleD
 DispatchInvs == /\ ConnectOnce_D /\ ConnectBeforeMessages_D /\ MessageOncePerClientOrder_D
                 /\ DisconnectOnce_D /\ NothingAfterDisconnect_D
                 /\ AcceptedIsConnected /\ RemovedIsDisconnected /\ DisconnectOnlyIfClosedOrSilent
-                /\ OnlyAdmittedDispatched
+                /\ OnlyAdmittedDispatched /\ ClosedAfterAllMessages
 InvocationInvs == /\ ConnectOnce_I /\ ConnectBeforeMessages_I /\ MessageOncePerClientOrder_I
                   /\ DisconnectOnce_I /\ NothingAfterDisconnect_I /\ InvokedWasDispatched
 DeliveryInvs == UnicastOnlyAddressee /\ BroadcastExactlyCurrentMembers /\ NothingUnflushed /\ FlushedCompletely
